@@ -5,7 +5,7 @@ def runs(tier, seed, replay):
     if replay:
         return props.replay_run(replay)
     n = 1200 if tier == "thorough" else 100
-    r = [{"args": ["c07", "--seed", str(seed), "--tier", tier, "--count", str(n)]}]
+    r = [{"args": ["c07", "--seed", str(seed), "--tier", tier, "--count", str(n)], "timeout": 7200 if tier == "thorough" else 3000}]
     # uniformity statistic (a test, labelled as such): thorough tier, small sample in quick
     r.append({"args": ["c07u", "--seed", str(seed), "--tier", tier, "--count", str(400 if tier == "thorough" else 20)],
               "profile": "release"})
